@@ -3,6 +3,7 @@
  * (2) E2 over file/dir/pathlist length combinations up to and beyond PATH_MAX;
  * (3) spawn trap with positive controls, and spiftool_temp_file over umask x TMPDIR/TMP x template length;
  * (4) E1 over init / register / parse / expand / free cycles with a heap baseline; counter sweep 0..300. */
+#include <dirent.h>
 #include "confcommon.h"
 #include <fcntl.h>
 
@@ -382,6 +383,28 @@ static void dl_case(uint64_t idx, void *ctx)
     mc_outcome(rl);
 }
 
+/* ------------------------------------------------------------------ commands near the line-buffer limit with a long TMPDIR: "COMMAND >TMPDIR/Eterm-exec-XXXXXX" is built in a buffer of the line size */
+#define XL_T 150
+static void xl_desc(uint64_t idx, void *ctx, char *b, size_t n) { (void) ctx; snprintf(b, n, "spifconf_shell_expand(\"`e aaa..`\") with a command of %d characters and a TMPDIR of %d characters (line buffer %d)", (int) (CONFIG_BUFF - XL_T - 45 + (int) idx), XL_T, CONFIG_BUFF); }
+static void xl_case(uint64_t idx, void *ctx)
+{
+    int P = CONFIG_BUFF - XL_T - 45 + (int) idx; (void) ctx;
+    const char *shape = P + XL_T + 18 + 8 > CONFIG_BUFF ? "command and temporary-file name together exceed the line buffer" : "command and temporary-file name fit in the line buffer"; mc_set_shape(shape);
+    static char tdir[400]; { size_t o = (size_t) snprintf(tdir, sizeof tdir, "%s/", scratch()); while (o < XL_T) tdir[o++] = 'd'; tdir[o] = 0; mkdir(tdir, 0700); }
+    names_once(); spifconf_init_subsystem();
+    char *b = malloc(CONFIG_BUFF); b[0] = '`'; b[1] = 'e'; b[2] = ' '; memset(b + 3, 'a', (size_t) P - 2); b[P + 1] = '`'; b[P + 2] = 0;
+    g_tmpdir_override = tdir; g_env_on = 1; g_allow_fork = 0; g_exec_emul = 1;
+    char *r = (char *) spifconf_shell_expand((spif_charptr_t) b);
+    g_exec_emul = 0; g_env_on = 0; g_allow_fork = 1; g_tmpdir_override = NULL;
+    if (r && strnlen(r, CONFIG_BUFF) >= CONFIG_BUFF) FAIL("builtin_exec", "model:too-long", shape, "result not terminated within the line buffer");
+    uint64_t rl = r ? strnlen(r, CONFIG_BUFF) : 0;
+    free(b);
+    spifconf_free_subsystem();
+    { DIR *d = opendir(tdir); struct dirent *e; char f[700]; if (d) { while ((e = readdir(d))) if (e->d_name[0] != '.') { snprintf(f, sizeof f, "%s/%s", tdir, e->d_name); unlink(f); } closedir(d); } }
+    mc_nontrivial();
+    mc_outcome(rl > 100 ? 2 : (rl ? 1 : 0));
+}
+
 int main(int argc, char **argv)
 {
     mc_init("C11", argc, argv);
@@ -399,6 +422,7 @@ int main(int argc, char **argv)
     mc_e2_level("counters", 300, 301, c_case, c_desc, NULL);
     mc_e2_level("dirscan_limit", 1, 10, ds_case, ds_desc, NULL);
     mc_e2_level("dirscan_long_path", PATH_MAX, NDLP, dl_case, dl_desc, NULL);
+    mc_e2_level("exec_near_limit_long_tmpdir", XL_T, 42, xl_case, xl_desc, NULL);
     { mc_sys sys = { "lifecycle", NLOPS, l_name, l_fresh, l_enabled, l_apply, NULL, l_canon, l_teardown, (int) mc_arg_int("lookahead", 1) }; mc_e1_run(&sys, (int) mc_arg_int("depth", mc_thorough() ? 9 : 7)); }
     return mc_finish();
 }
